@@ -103,6 +103,7 @@ def atoms():
             'x in (p.a, p.b)', 'p.a in (p.b, 1)', 'p.a not in (p.b, x)', "y in (p.s, p.u)", "p.s not in (p.u, 'a')",
             '(p.a, p.b) == (x, 1)', '(p.a, p.s) != (x, y)', '(p.a, p.b) in ((1, 2), (x, 3))', '(p.a, p.b) == z', '(p.a, p.b) != z',
             'p.a in z', 'p.b not in z', 'p.b in z',
+            'p.a not in ()', 'p.a in ()', 'p.b not in []', 'p.a in e', 'p.b not in e', "p.s not in ()",
             # per-row string index
             'p.s[p.a] == y', "p.s[p.a - 1] == 'a'", 'p.s[p.b] != y', 'p.s[-p.a] == y', 'p.s[len(p.s) - 1] == y', 'p.u[p.a] == p.s[0]',
             ]
@@ -130,7 +131,7 @@ def g_atoms():
             'exists(t for t in T if g in t.gs and t.w == x)', 'len(g.tags) > len(g.ps)', 'min(t.w for t in g.tags) < x', 'g.n in g.tags.w']
 
 
-SCOPE = {'x': INT(1), 'y': STR('a'), 'z': ('tuple', (1, 2))}
+SCOPE = {'x': INT(1), 'y': STR('a'), 'z': ('tuple', (1, 2)), 'e': ('tuple', ())}
 
 
 def programs(tier, rng):
